@@ -751,7 +751,7 @@ class Interp:
                 return Const(1 if op == "Eq" else 0, "bool")
             return self.fresh_sym(st, "cmp:%s:%s:%s" % (op, self.short(a), self.short(b)))
         base = op.replace("WithOverflow", "").replace("Unchecked", "")
-        if _op_depth(a) >= 3 or _op_depth(b) >= 3:
+        if _op_depth(a) >= 8 or _op_depth(b) >= 8:
             sym = Top("arith")          # widen deep arithmetic (loop counters)
         else:
             sym = Adt("op:%s" % base, 0, (a, b))
@@ -786,7 +786,7 @@ class Interp:
         if isinstance(v, Const):
             return v.v
         if isinstance(v, Adt):
-            if depth > 3:
+            if depth > (14 if v.name.startswith("op:") else 4):
                 return v.name.split("::")[-1]
             nm = v.name.split("::")[-1] if not v.name.startswith("op:") else v.name
             if v.vname is not None and v.vname != nm:
